@@ -135,8 +135,16 @@ def main():
                                                                          call("s64", 128, 0x0102030405060708), call("w64", 128, 0x0102030405060708), call("w64", 128, 0x0807060504030201),
                                                                          call("s64", 128, 2), call("w64", 128, 2), call("w64", 128, 0x0200000000000000)]}],
                                 wbuilds, sigfn=sg, observe_mems=False)
+        # (d) every atomic read-modify-write and compare-exchange flavour on cells touched only by accesses of one width (the
+        #     scenarios of the C16 check): the results are the same in both configurations
+        src16 = open(os.path.join(os.path.dirname(os.path.abspath(__file__)), "c16.py")).read().replace("main_wrap(main)", "")
+        ns16 = {"__file__": os.path.join(os.path.dirname(os.path.abspath(__file__)), "c16.py"), "__name__": "borrowed_c16"}
+        exec(compile(src16, "c16", "exec"), ns16)
+        import random as _random
+        st4, _ = machine.replay(v, ns16["isolated_items"](_random.Random(common.SEED)), builds,
+                                sigfn=lambda it, k, why, b, e_, a: "endian:atomic:%s:%s:%s" % (b["name"], it["script"][k - 1].get("export", "?"), why.split(":")[0]), observe_mems=False)
         for x in ("states", "transitions", "ops_compared"):
-            st[x] += st3[x]
+            st[x] += st3[x] + st4[x]
         st["states"] += st2["states"]
         st["transitions"] += st2["transitions"]
         st["ops_compared"] += st2["ops_compared"]
